@@ -51,14 +51,19 @@ class C10(Check):
     ASSUMPTIONS = ['well-supported problems only (ill-posed fits are C09); x2 / 2-D fits excluded (deprecated by the code itself)',
                    'curves are compared at abscissae inside the returned knot range only',
                    'the documented procedure is cumulative: a point rejected in one pass is not re-admitted (inmask = previous mask)']
-    REQUIRED_COUNTERS = ('fixed_point_optimality_checked', 'breakpoint_dropped_cases', 'permutations_checked', 'refits_observed', 'reference_loops_agreeing', 'maxiter0_cases',
+    REQUIRED_COUNTERS = ('fixed_point_optimality_checked', 'fixed_point_mask_checked', 'breakpoint_dropped_cases', 'permutations_checked', 'refits_observed', 'reference_loops_agreeing', 'maxiter0_cases',
                          'nonpositive_weight_points', 'outliers_flagged', 'deletion_checks', 'invvar_none_cases', 'float32_cases')
     CASE_CPU_S = 120
 
     def setup(self):
         import pydl.pydlutils.bspline as B
         self.B = B
-        self.rec.wrap(B.bspline, 'fit')
+        self._lastfit = None
+
+        def fit_seen(a, k, r):
+            # the data and weights the last refit received (in iterfit's own, sorted, order) and the status it returned
+            self._lastfit = tuple(np.array(v, dtype='f8') for v in a[1:4]) + (int(r[0]),)
+        self.rec.wrap(B.bspline, 'fit', result=fit_seen)
         self.rec.wrap(B, 'djs_reject')
         self.rec.wrap(B, 'iterfit')
         for f in (B.iterfit, B.bspline.fit, B.bspline.value):
@@ -144,6 +149,12 @@ class C10(Check):
         maxiter = 0 if cls == 'maxiter0' else rng.choice([1, 2, 3, 10, 10, rng.randint(0, 10)])
         if cls == 'gap':
             maxiter = rng.choice([5, 10, 10, 20])
+        # the documented procedure has no absolute flux scale: a third of the cases are in other units (counts ... micro-flux),
+        # flux times u and inverse variance over u^2
+        if rng.random() < 0.35:
+            u = 10 ** rng.uniform(-6, 6)
+            y = y * u
+            iv = iv / u ** 2
         dt = 'f4' if cls == 'float32' else 'f8'
         return {'kind': cls, 'x': x.astype(dt).astype('f8').tolist(), 'y': y.astype(dt).astype('f8').tolist(),
                 'iv': None if cls == 'invvar_none' else iv.astype(dt).astype('f8').tolist(), 'dtype': dt,
@@ -178,6 +189,7 @@ class C10(Check):
         band = 2e-3 if f32 else 1e-6
         ctol = 3e-3 if f32 else 1e-7
         nfit0 = self.rec.calls.get('bspline.fit', 0)
+        self._lastfit = None
         s, m, c, vm = self._call(x, y, iv, case)
         nfits = self.rec.calls.get('bspline.fit', 0) - nfit0
         out.count('refits_observed', max(0, nfits - 1))
@@ -280,8 +292,9 @@ class C10(Check):
 
     def _fixed_point(self, out, case, s, m, c, x, y, iv):
         """The fit dropped breakpoints (data gap).  The intermediate knot sets are the code's own business, but the END
-        state is decidable: weights clause, and - if the returned mask is a fixed point of the rejection rule for the
-        returned curve - the curve must be the weighted LS optimum over the breakpoints that are still unmasked."""
+        state is decidable: weights clause; the returned curve must be the weighted LS optimum, over the breakpoints still
+        unmasked, of the data and weights the last refit received (recorded at the bspline.fit boundary); and the returned mask
+        must be the rejection rule applied to that curve."""
         xd, yd = x.astype('f8'), y.astype('f8')
         n = x.size
         if iv is None:
@@ -296,28 +309,49 @@ class C10(Check):
         if len(gb) < 2 * k or not np.all(np.isfinite(c)):
             out.undecide()
             return
-        r = (yd - c.astype('f8')) * np.sqrt(np.where(pos, ivd, 0.0))
-        band = 1e-6
-        new = m & ~((r < -case['lower']) | (r > case['upper']))
-        near = bool(np.any(m & ((np.abs(r + case['lower']) < band * max(1, case['lower'])) |
-                                (np.abs(r - case['upper']) < band * max(1, case['upper'])))))
-        if near or not np.array_equal(new, m):
-            out.undecide()              # stopped by maxiter before converging: the last refit used an earlier mask
+        if self._lastfit is None or int(m.sum()) <= 1:
+            out.undecide()
             return
-        A = BR.basis_matrix(gb, k, xd, extrapolate=True)
-        wfin = np.where(m, ivd, 0.0)
-        cref, rank, sv = BR.wls(A, yd, wfin)
+        # Which mask the last refit used cannot be told from (curve, mask) alone - the returned mask is by construction what the
+        # rejection rule makes of the returned curve, converged or stopped by maxiter - so the weights that refit received
+        # are taken from the recorded call.
+        xl, yl, wl, last_status = self._lastfit
+        if last_status != 0:
+            # the last refit itself reported (documented status -1) that it dropped breakpoints and left the coefficients of
+            # the previous fit in place; the loop would have refitted had iterations remained
+            out.count('last_refit_reported_failure')
+            out.undecide()
+            return
+        if xl.size != n or not np.array_equal(np.sort(xd), xl):
+            out.fail('harness-error', 'the recorded last bspline.fit call does not belong to this iterfit call')
+            return
+        cl = np.asarray(s.value(xl.astype(x.dtype))[0], dtype='f8')
+        # (a) the returned mask is the rejection rule applied to the returned curve, within the points the last refit used
+        o = np.argsort(xd, kind='stable')
+        ivs, ms = ivd[o], m[o]
+        if np.array_equal(xd[o], xl) and not np.any(np.diff(xl) == 0):
+            r = (yl - cl) * np.sqrt(np.where(ivs > 0, ivs, 0.0))
+            band = 1e-6
+            near = (np.abs(r + case['lower']) < band * max(1, case['lower'])) | (np.abs(r - case['upper']) < band * max(1, case['upper']))
+            expect_mask = (wl > 0) & ~((r < -case['lower']) | (r > case['upper']))
+            dec = ~near
+            out.expect(bool(np.array_equal(ms[dec], expect_mask[dec])), 'fixed-point-mask',
+                       'returned mask is not the rejection rule applied to the returned curve over the points of the last refit '
+                       '(%d points differ)' % int((ms[dec] != expect_mask[dec]).sum()))
+            out.count('fixed_point_mask_checked')
+        A = BR.basis_matrix(gb, k, xl, extrapolate=True)
+        wfin = np.where(wl > 0, wl, 0.0)
+        cref, rank, sv = BR.wls(A, yl, wfin)
         cond = float(sv[0] / sv[-1]) if sv[-1] > 0 else np.inf
         if rank < A.shape[1] or cond ** 2 * 1.1e-16 > 1e-6:
             out.undecide()
             return
-        inside = (xd >= gb[k - 1]) & (xd <= gb[len(gb) - k]) & m
-        chi = float(np.sum(wfin * (yd - c.astype('f8')) ** 2))
-        chi_ref = float(np.sum(wfin * (yd - A @ cref) ** 2))
-        scale = float(np.sum(wfin * yd * yd)) + 1e-300
+        chi = float(np.sum(wfin * (yl - cl) ** 2))
+        chi_ref = float(np.sum(wfin * (yl - A @ cref) ** 2))
+        scale = float(np.sum(wfin * yl * yl)) + 1e-300
         out.expect(chi <= chi_ref + 1e-7 * scale, 'fixed-point-optimum',
-                   'converged (the returned mask is a fixed point of the rejection rule) but the returned curve is not the weighted '
-                   'LS optimum over the %d unmasked breakpoints: chi-square %.6g vs %.6g' % (len(gb), chi, chi_ref),
+                   'the returned curve is not the weighted LS optimum, over the %d unmasked breakpoints, of the data and weights '
+                   'its last refit received: chi-square %.6g vs %.6g' % (len(gb), chi, chi_ref),
                    rejected=int((pos & ~m).sum()), dropped_breakpoints=int((~np.asarray(s.mask, dtype=bool)).sum()))
         out.count('fixed_point_optimality_checked')
         out.nontrivial = True
